@@ -120,6 +120,19 @@ def narrowing_templates():
         T.append([("fndecl", "g", [("x", U)], M, [("fndecl", "h", [("x", M)], M, [("return", V("x"))]), ("return", V("x"))]), call("g", val)])
         # block-local redeclaration at a narrower type
         T.append([("fndecl", "g", [("x", U)], M, [("block", [("set", "x", I(1)), V("x")]), ("return", V("x"))]), call("g", val)])
+    # a name bound by `if x: T = e` / `while x: T = e` / a type arm has the ANNOTATED type T, nothing narrower: with T a struct
+    # type that the value's own (wider) struct type matches, using x where an int is wanted must be rejected
+    SA_, SAB_ = ("struct", (("a", INT),)), ("struct", (("a", INT), ("b", INT)))
+    sval = ("struct", [("a", I(1)), ("b", I(2))])
+    for ety in (multi(SAB_, INT), SAB_, multi(SAB_, ("struct", (("c", STR),)))):
+        pre = [("set", "c", ("mut", ety, sval)), ("set", "out", ("mut", INT, I(0)))]
+        T.append(pre + [("ifset", "x", SA_, ("pre", "deref", V("c")), ("block", [("assign", "set", V("out"), V("x"))]), None), ("pre", "deref", V("out"))])
+        T.append(pre + [("whileset", "x", SA_, ("pre", "deref", V("c")), ("block", [("assign", "set", V("out"), V("x")), ("break",)])), ("pre", "deref", V("out"))])
+        T.append(pre + [("match", ("pre", "deref", V("c")), [("ty", "x", SA_, ("block", [("assign", "set", V("out"), V("x"))])), ("other", ("block", [I(0)]))]), ("pre", "deref", V("out"))])
+        T.append(pre + [("fndecl", "g", [("v", ety)], INT, [("ifset", "x", SA_, V("v"), ("block", [("return", V("x"))]), None), ("return", I(0))]),
+                        ("bin", "add", ("call", V("g"), [("pre", "deref", V("c"))]), I(1))])
+        T.append(pre + [("set", "xs", ("array", [("pre", "deref", V("c"))])),
+                        ("ifset", "x", arr(SA_), V("xs"), ("block", [("assign", "set", V("out"), ("at", V("x"), I(0)))]), None), ("pre", "deref", V("out"))])
     # stray signals after constant-condition loops and in function bodies
     for cond in (("true",), ("false",)):
         for sig in (("break",), ("continue",)):
